@@ -8,6 +8,9 @@ def repo_fix_commits():
     return []
 
 CHECKS = {
+ "C09": ("fault_enumeration", "exhaustive fault enumeration at the I/O boundary (failing io.Writer / io.Reader) with result/panic monitors",
+   "A dry run records the sink Write calls of each writer history (xz, .lzma plain and ByteWriter sinks, LZMA2 with flushes; ending in Close, Close); every call index x {once, forever} x {no bytes, partial write} is replayed and the monitor demands: no panic, some call returns an error, all-nil only with a complete valid stream in the sink. Every source offset x {once, forever} is replayed for the xz (incl. SingleStream), .lzma and LZMA2 readers over plain and ByteReader sources; the injected error must surface (errors.Is), never a clean end.",
+   "Fault positions are exhaustive per case (byte-writer sinks thinned after call 3000); cases are a sample; internal/ref validates sinks when all calls returned nil.", "4 C09"),
  "C04": ("exploration", "fault injection on stored streams (bit flips, bursts, insertions, deletions, CRC-resealed field edits) with a content/verdict monitor",
    "For each seed stream every single-bit flip, a burst at every byte, an insertion and a deletion at every offset and every deletion between structural boundaries is read back and the monitor asserts 'never a clean end with different content'; ~50 classes of field-level edits built with an independent container serializer (CRC32s re-sealed) must each be reported as an error, also for check-less streams.",
    "Seeds are a sample (valid for internal/ref); modifications per seed are enumerated completely for the stated classes.", "4 C04"),
